@@ -76,6 +76,56 @@ def gen(args) -> list:
             return rnd.randint(-4371222, 2932896)
         return rnd.randint(std_lo, std_hi)
 
+    def fields_event(cal, y, m, d, nod, off, ld=None):
+        ev = {"op": "fields_to_date", "cal": cal.id, "y": y, "m": m, "d": d, "t3": [nod // 10**9, nod % 10**9], "off": off}
+        try:
+            ld = ld if ld is not None else LocalDate(y, m, d, cal)
+            ev["res"] = _dfields(ld.to_date())
+            ldt = ld.at(LocalTime.from_nanoseconds_since_midnight(nod))
+            ev["naive"] = _xfields(ldt.to_naive_datetime())
+            aw = ldt.with_offset(Offset.from_seconds(off)).to_aware_datetime()
+            ev["aware"], ev["aware_off"] = _xfields(aw.replace(tzinfo=None)), int(aw.utcoffset().total_seconds())
+        except Exception as e:  # noqa: BLE001
+            ev["exc"] = type(e).__name__
+        return ev
+
+    std_lo, std_hi = dt.date.min.toordinal() - 719163, dt.date.max.toordinal() - 719163
+    # histories: a calendar whose per-year data is cached may derive a year's entry from its neighbour's: year y + 1 (or y - 1)
+    # is asked about first, from empty caches, then dates all over year y (the Hebrew calendars share one such cache)
+    from harness.props.c13 import cold
+
+    for cal in cals:
+        if seed % 4 != 0 and not cal.id.startswith("Hebrew"):
+            continue
+        calc = cal._year_month_day_calculator
+        for _ in range(6 if cal.id.startswith("Hebrew") else 1):
+            # (years of this calendar that lie wholly inside the standard library's range: by day numbers, no conversion asked for)
+            lo_d, hi_d = max(cal._min_days, std_lo) + 800, min(cal._max_days, std_hi) - 800
+            if lo_d >= hi_d:
+                continue
+            lo_y = LocalDate._ctor(days_since_epoch=lo_d, calendar=cal).year
+            hi_y = LocalDate._ctor(days_since_epoch=hi_d, calendar=cal).year
+            if lo_y >= hi_y:
+                continue
+            y = rnd.randint(lo_y, hi_y)
+            first = y + rnd.choice([1, 1, -1])
+
+            def run(cal=cal, y=y, first=first):
+                out = []
+                LocalDate(first, 1, 1, cal).to_date()
+                nm = cal.get_months_in_year(y)
+                for m in sorted(set([1, 2, 3, nm, nm - 1, rnd.randint(1, nm), rnd.randint(1, nm)])):
+                    if 1 <= m <= nm:
+                        d = rnd.choice([1, cal.get_days_in_month(y, m)])
+                        out.append(fields_event(cal, y, m, d, rnd.randrange(NPD), 0))
+                        out[-1]["after_year"] = first
+                return out
+
+            try:
+                evs.extend(cold(calc, run))
+            except Exception:  # noqa: BLE001
+                pass
+
     for _ in range(n):
         c = rnd.random()
         if c < 0.1:
@@ -132,16 +182,7 @@ def gen(args) -> list:
                 ld = LocalDate(y, m, d, cal)
             except Exception:  # noqa: BLE001 - not a date of this calendar: C01's business
                 continue
-            ev = {"op": "fields_to_date", "cal": cal.id, "y": y, "m": m, "d": d, "t3": [nod // 10**9, nod % 10**9], "off": off}
-            try:
-                ev["res"] = _dfields(ld.to_date())
-                ldt = ld.at(LocalTime.from_nanoseconds_since_midnight(nod))
-                ev["naive"] = _xfields(ldt.to_naive_datetime())
-                aw = ldt.with_offset(Offset.from_seconds(off)).to_aware_datetime()
-                ev["aware"], ev["aware_off"] = _xfields(aw.replace(tzinfo=None)), int(aw.utcoffset().total_seconds())
-            except Exception as e:  # noqa: BLE001
-                ev["exc"] = type(e).__name__
-            evs.append(ev)
+            evs.append(fields_event(cal, y, m, d, nod, off, ld))
         elif c < 0.5:
             cal = rnd.choice(cals)
             day = rday_near_std() if rnd.random() < 0.5 else rnd.randint(max(cal._min_days, std_lo - 2), min(cal._max_days, std_hi + 2))
